@@ -57,11 +57,15 @@ ACCS = {
     'minmax': (lambda a, x: (min(a[0], x), max(a[1], x)), lambda a, x: (min(a[0], x), max(a[1], x)), lambda: (0, 0), False),
     'none_min': (lambda a, x: x if a is None or x < a else a, lambda a, x: x if a is None or x < a else a, lambda: None, False),
     'append': (_acc_append, lambda a, x: a + [x], lambda: [], True),
+    # returns None for some items: None is then a legitimate running value, not 'no value yet'
+    'maybe_none': (lambda a, x: None if x % 3 == 0 else (['n', x] if a is None else a + [x]),
+                   lambda a, x: None if x % 3 == 0 else (['n', x] if a is None else a + [x]), lambda: ['seed'], False),
     'dict': (_acc_dict, lambda a, x: dict(list(a.items()) + [(x % 3, a.get(x % 3, 0) + 1)]), lambda: {}, True),
     'nested': (_acc_nested, lambda a, x: [a[0] + [x], a[1] + 1], lambda: [[], 0], True),
 }
 TERMS = {
     'isum': lambda a: a * 10 + 1, 'fsum': lambda a: a + 0.25, 'or': lambda a: not a, 'minmax': lambda a: (a[1], a[0]),
+    'maybe_none': lambda a: ['T'] if a is None else a + ['T'],
     'none_min': lambda a: -1 if a is None else a + 100, 'append': lambda a: a + ['T'], 'dict': lambda a: dict(list(a.items()) + [('T', 1)]),
     'nested': lambda a: [a[0] + ['T'], a[1]],
 }
